@@ -119,3 +119,45 @@ mod tests {
         assert_eq!(0, tiny_lfu.total_increments);
     }
 }
+
+#[cfg(cached_verif)]
+pub struct VerifTinyLFU(pub(crate) TinyLFU);
+
+#[cfg(cached_verif)]
+impl VerifTinyLFU {
+    pub fn new(counters: TotalCounters) -> Self { VerifTinyLFU(TinyLFU::new(counters)) }
+    pub fn with_seeds(counters: TotalCounters, seeds: [u64; 4]) -> Self {
+        let mut tiny_lfu = TinyLFU::new(counters);
+        tiny_lfu.key_access_frequency.verif_set_seeds(seeds);
+        VerifTinyLFU(tiny_lfu)
+    }
+    pub fn increment_access(&mut self, key_hashes: Vec<KeyHash>) { self.0.increment_access(key_hashes) }
+    pub fn estimate(&self, key_hash: KeyHash) -> FrequencyEstimate { self.0.estimate(key_hash) }
+    /// estimate together with the doorkeeper's answer it used
+    pub fn estimate_with_door(&self, key_hash: KeyHash) -> (FrequencyEstimate, bool) {
+        (self.0.estimate(key_hash), self.0.door_keeper.has(&key_hash))
+    }
+    /// one access; returns the doorkeeper's answer (true = was already present)
+    pub fn increment_one(&mut self, key_hash: KeyHash) -> bool {
+        let had = self.0.door_keeper.has(&key_hash);
+        self.0.increment_access_for(key_hash);
+        had
+    }
+    pub fn clear(&mut self) { self.0.clear() }
+    pub fn rows(&self) -> Vec<Vec<u8>> { self.0.key_access_frequency.verif_rows() }
+    pub fn seeds(&self) -> Vec<u64> { self.0.key_access_frequency.verif_seeds() }
+    pub fn total_counters(&self) -> u64 { self.0.key_access_frequency.verif_total_counters() }
+    pub fn total_increments(&self) -> u64 { self.0.total_increments }
+    pub fn reset_counters_at(&self) -> u64 { self.0.reset_counters_at }
+    pub fn door_has(&self, key_hash: KeyHash) -> bool { self.0.door_keeper.has(&key_hash) }
+}
+
+#[cfg(cached_verif)]
+impl TinyLFU {
+    pub(crate) fn verif_rows(&self) -> Vec<Vec<u8>> { self.key_access_frequency.verif_rows() }
+    pub(crate) fn verif_seeds(&self) -> Vec<u64> { self.key_access_frequency.verif_seeds() }
+    pub(crate) fn verif_set_seeds(&mut self, seeds: [u64; 4]) { self.key_access_frequency.verif_set_seeds(seeds) }
+    pub(crate) fn verif_total_counters(&self) -> u64 { self.key_access_frequency.verif_total_counters() }
+    pub(crate) fn verif_total_increments(&self) -> u64 { self.total_increments }
+    pub(crate) fn verif_reset_counters_at(&self) -> u64 { self.reset_counters_at }
+}
